@@ -124,7 +124,9 @@ def gen_history(rng, maxlen):
             plan.append(('empty', days, now, fresh))
         steps.append({'cmd': 'list', 'argv': []})
         plan.append(('list',))
-    return lay.scenario(steps, cwd='/', extra=nodes), plan
+    scn = lay.scenario(steps, cwd='/', extra=nodes)
+    scn['initial_bag'] = [list(x) for x in initial]          # carried in the scenario so that a replay judges against the same bag
+    return scn, plan
 
 
 def parse_records(out):
@@ -239,14 +241,17 @@ def replay(run, payload):
     for st in scn['steps']:
         if first and st['cmd'] == 'list':
             first = False
-            plan.append(('init', [tuple(x) for x in parse_records(res['steps'][0]['stdout'])]))
+            if scn.get('initial_bag') is not None:
+                plan.append(('init', [tuple(x) for x in scn['initial_bag']]))
+            else:
+                plan.append(('init', [tuple(x) for x in parse_records(res['steps'][0]['stdout'])]))
             continue
         first = False
         if st['cmd'] == 'put':
             n = st['now']
             plan.append(('put', st['argv'][-1], datetime.datetime(*n[:6])))
         elif st['cmd'] == 'restore':
-            plan.append(('restore', st['argv'][0], (st.get('stdin') or '').rstrip('\n')))
+            plan.append(('restore', st['argv'][0], (st.get('stdin') or '').rstrip('\n'), bool((st.get('plan') or {}).get('faults'))))
         elif st['cmd'] == 'rm':
             plan.append(('rm', st['argv'][0]))
         elif st['cmd'] == 'empty':
